@@ -1,7 +1,7 @@
 package main
 
 func init() {
-	reg("C03", propCfg{Pkg: "./props/c03", Rule: "generated trees are the oracle (the stated operator table); literals against the generated Go value",
+	reg("C03", propCfg{Pkg: "./props/c03", Fuzz: map[string]string{"FuzzC03Number": "numerals"}, Rule: "generated trees are the oracle (the stated operator table); literals against the generated Go value",
 		Assumptions: assume(
 			"the operator table of the statement is the specification: the generated tree and its minimal/fully parenthesised printers encode it",
 			"`in` under `in` without parentheses (statement: left, grammar: %right), `<-`, assignment forms and ++/--/op= as expressions, float underflow spellings are outside the stated domain and not generated",
